@@ -1539,7 +1539,12 @@ func (node *FuncExpr) Format(buf *TrackedBuffer) {
 	}
 	// Function names should not be back-quoted even
 	// if they match a reserved word. So, print the
-	// name as is.
+	// name as is, unless it was written in quotes: a quoted
+	// name is case sensitive in PostgreSQL and must stay quoted.
+	if node.Name.quote != 0 {
+		buf.Myprintf("%v(%s%v)", node.Name, distinct, node.Exprs)
+		return
+	}
 	buf.Myprintf("%s(%s%v)", node.Name.String(), distinct, node.Exprs)
 }
 
